@@ -177,6 +177,45 @@ def check(ctx: Ctx) -> None:
         ob.site(fsv, fsv.node, "serve(): state read by the receiver thread exists before _initreceive()", paths=n_init, attrs=len(read_in_receiver), ok=not late)
         ob.require(n_init >= 1, "serve(): _initreceive() not found")
 
+    with ctx.obligation("C11.j", "trace-cannot-raise") as ob:
+        # the receiver's epilogue is interleaved with trace calls; the analysis (and the code) relies on tracing never raising --
+        # e.g. when the inherited stderr became a broken pipe because the initiator died.  Every definition of the module-level
+        # trace function is one try statement whose handler catches Exception and cannot raise itself.
+        gbm = repo.module(GB)
+
+        def quiet(stmts) -> bool:
+            for st_ in stmts:
+                if isinstance(st_, ast.Pass) or (isinstance(st_, ast.Expr) and isinstance(st_.value, ast.Constant)):
+                    continue
+                if isinstance(st_, ast.Try) and not st_.finalbody and catches_all(st_) and all(quiet(h.body) for h in st_.handlers):
+                    continue
+                return False
+            return True
+
+        def catches_all(tr: ast.Try) -> bool:
+            return any(h.type is None or unparse(h.type) in ("Exception", "BaseException") for h in tr.handlers)
+        ntr = 0
+        def module_level(body):
+            for st_ in body:
+                if isinstance(st_, ast.FunctionDef):
+                    yield st_
+                elif isinstance(st_, (ast.If, ast.Try)):
+                    for fld in ("body", "orelse", "finalbody"):
+                        yield from module_level(getattr(st_, fld, []) or [])
+                    for h in getattr(st_, "handlers", []) or []:
+                        yield from module_level(h.body)
+        for fn in module_level(gbm.tree.body):
+            if fn.name == "trace":
+                ntr += 1
+                body = [b for b in fn.body if not (isinstance(b, ast.Expr) and isinstance(b.value, ast.Constant))]
+                ok = len(body) == 1 and isinstance(body[0], ast.Try) and catches_all(body[0]) and not body[0].finalbody and all(quiet(h.body) for h in body[0].handlers) \
+                    and not body[0].orelse
+                ob.site(gbm, fn, "trace() contains every exception of writing the trace line", ok=ok)
+                if not ok:
+                    ob.violation(gbm, fn, "a trace function can raise (its handler does not catch Exception): with the debug output gone (broken pipe after the initiator "
+                                          "died) the first trace call in the receiver's epilogue aborts it before _terminate_execution()", construct="trace can raise")
+        ob.require(ntr >= 1, "no trace function definition found in gateway_base")
+
     # an idle primary thread must be woken by trigger_shutdown, whatever else is still running in the pool
     from .C09 import check_shutdown_wakeup
     check_shutdown_wakeup(ctx, "C11.i")
